@@ -29,22 +29,27 @@ LEVEL_NOTE = ("Proved about the MODEL of the queue only; the C++ is connected to
               "(route validity, cost equality with a fresh router, graph staleness). 'Fresh router gives the optimum' "
               "is C04/C05's business - here fresh and incremental are only compared with each other. Rectangles "
               "and free-floating junctions only (no connection pins, clusters, checkpoints, hyperedges); the "
-              "generator keeps shapes interior-disjoint with gaps >= 1 and endpoints >= 1 away from shapes. "
+              "generator keeps shapes interior-disjoint with gaps >= 1 (except the bar/slab pair of class unblock-one-side, "
+              "during which the graph audit is off) and endpoints >= 1 away from shapes. A stale route is put in the "
+              "known class not-rerouted-fewer-bends-via-new-vertex only if segmentPenalty > 0, the fresh route has no "
+              "more bends and turns at a corner of an obstacle added / moved in that transaction. "
               "Route validity is judged against shapes; junction obstacle boxes are used in the DIVERGE-level graph "
               "audit and, for polyline routes, only to recognise a route running through the DIAGONAL of a junction "
               "box (same newBlockingShape defect as for shapes, known finding C06-block-diagonal); orthogonal routes "
               "legitimately cross free-floating junctions. An invalid route is not cost-compared. Within one "
               "history the two known-finding classes (through-two-corners, not-rerouted-fewer-bends*) rank below "
               "every other failure so they cannot mask one; a stale route that stays unchanged keeps the class it "
-              "was first reported with. deleteJunction with transactions off (also: switching transactions off "
-              "while a deleteJunction is queued) is not generated: re-entrant processTransaction from "
-              "~ShapeConnectionPin, reported under C15.")
+              "was first reported with. deleteJunction with transactions off is generated again since /repo 448bcee "
+              "(it used to re-enter processTransaction from ~ShapeConnectionPin; found here, reported under C15).")
 TECHNIQUE = ("Lean 4 refinement proof of the action-queue state machine (invariant + per-call simulation + flush "
              "theorem) + exact rational route / cost / graph checkers with soundness theorem + correspondence harness "
              "with a from-scratch router as oracle")
 RULE = ("histories of 3-25 further calls after a set-up of 2-10 rectangles, 0-2 junctions, 1-6 connectors on an "
-        "integer grid; 9 generator classes cycled by case index: unblock-untouched (blocker that the route does not "
-        "touch is deleted / moved away), unblock-touched (obstacle the route bends around deleted / moved away / "
+        "integer grid; 10 generator classes cycled by case index: unblock-untouched (blocker that the route does not "
+        "touch is deleted / moved away), unblock-one-side (a thin bar pokes into a big slab W - the only class with two "
+        "overlapping shapes; the shortcut that opens when W is deleted / moved relatively / absolutely enters and leaves "
+        "the vacated region through ONE side of W, each of the four sides in turn, W's polygon starting at each of its "
+        "four vertices so that the closing side last->first varies; transactions on and off), unblock-touched (obstacle the route bends around deleted / moved away / "
         "moved and moved back / moved then deleted / deleted and re-added), block (obstacle moved onto a route), "
         "block-diagonal (obstacle moved so that a route runs through two opposite corners), txn-off-pending, "
         "rand-poly, rand-orth, rand-poly-off, rand-orth-off (random calls biased to shapes touched by routes or "
